@@ -175,13 +175,14 @@ fn main() {
     let n_random = arg_u64("--n", if tier_thorough { 60000 } else { 6000 });
     let mut rng = Rng::new(seed);
     let lat = lattice();
+    let shard = arg_u64("--shard", 0);
 
     // 1. boundary lattice: full cube in the thorough tier, a seeded third of it in quick
     t.seq("lattice128");
     for &x in &lat {
         for &y in &lat {
             for &d in &lat {
-                if tier_thorough || rng.below(6) == 0 || d == 0 || d == -1 {
+                if (tier_thorough && shard == 0) || rng.below(6) == 0 || d == 0 || d == -1 {
                     do128(&mut t, x, y, d);
                 }
             }
